@@ -14,7 +14,7 @@ import (
 // C14 — stored values are isolated from caller memory (DESIGN 4/C14, M8).
 
 func init() {
-	drivers["C14"] = &driver{cases: tierN(500, 10000), run: runC14}
+	drivers["C14"] = &driver{cases: tierN(500, 30000), run: runC14}
 }
 
 var timeT = reflect.TypeOf(time.Time{})
